@@ -120,7 +120,7 @@ impl ManifestPack {
     fn _get_check_info(&self) -> Result<CheckInfo> {
         self.reader.parse_block_in::<CheckInfo>(
             self.pack_header.check_info_pos,
-            self.pack_header.check_info_size(),
+            self.pack_header.check_info_size()?,
         )
     }
 
